@@ -389,6 +389,16 @@ inline std::vector<int64_t> gen_transform(int kind, int sw, int sh) {
     m[6] = R(-3000, 3000);
     m[7] = R(-3000, 3000);
     m[8] = coin(50) ? 65536 : R(20000, 200000);
+    // homogeneous-but-affine shapes: w constant along a scanline (m20 == 0) or everywhere (m20 == m21 == 0) yet != 1;
+    // code that tests "is this affine" by looking at only part of the last row lives here
+    switch (pickw({6, 2, 2})) {
+    case 1: m[6] = 0; break;
+    case 2:
+      m[6] = m[7] = 0;
+      m[8] = pick<int64_t>({32768, 131072, 98304, 65537, 21845});
+      break;
+    default: break;
+    }
     break;
   }
   return m;
